@@ -12,8 +12,10 @@ registrations it holds, whatever happened before — the ACTIVE table is the tab
 (`watch_installs_current`, `watch_follows_history`); both readers of the command language accept the text
 (`config_parses`, `config_aliases_ok`).
 
-Scope: no manual overrides (`mancfg = ""`; an operator's `route del` may of course remove a service's routes —
-property C01/C02 territory).
+Scope of the manual text: `watch_installs_current` / `watch_follows_history` are stated for `mancfg = ""`;
+`watch_installs_current_with_manual` for any manual text made of `route add` commands a table accepts (plus comments
+and blank lines). An operator's `route del` / `route weight` may of course remove or re-weigh a service's routes —
+property C01/C02 territory.
 -/
 namespace Fabio.Props.C14Watch
 open Fabio Fabio.Model.Route Fabio.Model.C05Spec Fabio.Model.C14 Fabio.Model.C14Watch Fabio.Lemmas.C14
@@ -101,6 +103,30 @@ theorem watch_installs_current {s : WState} (hs : Inv env pf s) (hm : s.mancfg =
   rw [step_installs hs hm ht]
   exact ⟨ht, h1, h2⟩
 
+/-- **first_update_starts_fabio.** `main` starts the listeners only after `watchBackend` has closed `first`, which it
+does after its first successful `route.SetTable`. Whatever is registered when fabio starts — hostile registrations
+included — the first text `makeConfig` produces gets there: fabio starts serving. (Before the repair of D19 one
+instance with `weight=abc` kept a starting fabio from ever serving.) -/
+theorem first_update_starts_fabio (env : Env) (pf : ParseFloat) (c : Cfg) (regs : List Reg) :
+    (step env pf init (.svc (config env pf c regs))).started = true := by
+  obtain ⟨t, ht, _⟩ := no_poisoning env pf c regs
+  refine step_started (t := t) started_init ?_
+  have : nextText (receive init (.svc (config env pf c regs))) = config env pf c regs ++ ['\n'] := by
+    simp [nextText, receive, init]
+  rw [this, loadTable_snoc_nl]
+  exact ht
+
+/-- … and stays so: `Started` is an invariant of the loop (`started_init`, `started_step`), and every iteration that
+receives a catalog's text with no manual overrides ends with `first` closed -/
+theorem update_keeps_fabio_serving {s : WState} (hs : Started s) (hm : s.mancfg = []) (regs : List Reg) :
+    (step env pf s (.svc (config env pf c regs))).started = true := by
+  obtain ⟨t, ht, _⟩ := no_poisoning env pf c regs
+  refine step_started (t := t) hs ?_
+  have : nextText (receive s (.svc (config env pf c regs))) = config env pf c regs ++ ['\n'] := by
+    simp [nextText, receive, hm]
+  rw [this, loadTable_snoc_nl]
+  exact ht
+
 /-- **hostile_registration_changes_nothing.** The property's second sentence in one line: a registration none of
 whose routing tags can be expressed, placed anywhere in a catalog, leaves the loop in exactly the state the catalog
 without it leaves it in — same active table, same remembered text, same `Register` calls. (No hypothesis on the
@@ -178,6 +204,91 @@ theorem watch_follows_history (env : Env) (pf : ParseFloat) (c : Cfg) (steps : L
         · exact .inr (ih bs h)
   exact h _ (hz _ _ hp)
 
+/-! ### with the operator's manual text in force -/
+
+/-- `route.Parse` reads `a + "\n" + b` as what it reads from `a` followed by what it reads from `b` -/
+theorem parse_concat {a b : Str} {da db : List RouteDef} (ha : parse pf a = .ok da) (hb : parse pf b = .ok db) :
+    parse pf (a ++ '\n' :: b) = .ok (da ++ db) := by
+  unfold Fabio.Model.Parse.parse at ha hb ⊢
+  rw [parseLines_rawLines] at ha hb ⊢
+  rw [splitOn_append_sep]
+  exact parseLines_append pf _ _ 1 1 _ _ ha hb
+
+/-- the operator's text: `route add` commands an empty table accepts, comments, blank lines -/
+def ManAdds (env : Env) (pf : ParseFloat) (man : Str) (md : List RouteDef) : Prop :=
+  parse pf man = .ok md ∧ ∀ d ∈ md, d.cmd = .add ∧ accepted env d = true
+
+/-- **watch_installs_current_with_manual.** As `watch_installs_current`, with a manual text of `route add` commands in
+force: the update of the services is installed in this very iteration, every expressible routing tag of the catalog
+has its target, and every target of the table was asked for by a routing tag of the catalog or by a command of the
+operator's text. -/
+theorem watch_installs_current_with_manual {s : WState} (hs : Inv env pf s) {man : Str} {md : List RouteDef}
+    (hman : ManAdds env pf man md) (hm : s.mancfg = man) (regs : List Reg) :
+    ∃ t, (step env pf s (.svc (config env pf c regs))).table = t ∧
+      loadTable env pf (config env pf c regs ++ '\n' :: man) = .ok t ∧
+      (∀ r ∈ named regs, ∀ i ∈ intents c r, expressibleB env pf i = true →
+        ∃ d u, wantDef pf i = some d ∧ env.normURL d.dst = some u ∧
+          isDup (abs t (key d.src).1 (key d.src).2) (newTarget d u) = true) ∧
+      (∀ h p x, x ∈ abs t h p →
+        (∃ r ∈ named regs, ∃ i ∈ intents c r, ∃ d u, wantDef pf i = some d ∧ env.normURL d.dst = some u ∧
+          key d.src = (h, p) ∧ core x = core (newTarget d u)) ∨
+        (∃ d ∈ md, ∃ u, env.normURL d.dst = some u ∧ key d.src = (h, p) ∧ core x = core (newTarget d u))) := by
+  obtain ⟨defs, hp, hd⟩ := config_parses env pf c regs
+  have hok : ∀ d ∈ defs ++ md, AddOK env d := by
+    intro d hmem
+    rcases List.mem_append.1 hmem with h | h
+    · obtain ⟨_, _, i, _, hw, ha⟩ := hd d h
+      exact (addRoute_nil_iff env d (wantDef_cmd hw)).1 ((accepted_iff env d (wantDef_cmd hw)).1 ha)
+    · exact (addRoute_nil_iff env d (hman.2 d h).1).1 ((accepted_iff env d (hman.2 d h).1).1 (hman.2 d h).2)
+  obtain ⟨t, ht, hE⟩ := newTable_adds (defs ++ md) hok
+  have hload : loadTable env pf (config env pf c regs ++ '\n' :: man) = .ok t := by
+    unfold loadTable
+    rw [parse_concat hp hman.1]
+    simp only [ht]
+  have hnext : nextText (receive s (.svc (config env pf c regs))) = config env pf c regs ++ '\n' :: man := by
+    simp [nextText, receive, hm]
+  have htab : (step env pf s (.svc (config env pf c regs))).table = t := by
+    unfold step
+    simp only
+    split
+    · next heq =>
+      have heq : nextText (receive s (.svc (config env pf c regs))) = s.lastTable := by simpa [receive] using heq
+      rcases hs with h0 | h1
+      · exact absurd (heq.trans h0) (nextText_ne_nil _)
+      · rw [← heq, hnext, hload] at h1
+        injection h1 with h1
+        exact h1.symm
+    · rw [hnext, hload]
+  refine ⟨t, htab, hload, ?_, ?_⟩
+  · intro r hr i hi he
+    have hx := expressible_of_B he
+    obtain ⟨d, hdd⟩ := hx.wantDef_some
+    -- the command of `i` is in the text, so its definition is among `defs`
+    have hmem : render i ∈ sortDesc (commands env pf c regs) :=
+      (mem_sortDesc _ _).2 ((other_commands_unaffected regs).2 ⟨r, hr, i, hi, denotes_of_expressible hx, rfl⟩)
+    have hpar : parse pf (config env pf c regs) =
+        .ok ((sortDesc (commands env pf c regs)).flatMap (fun cmd => match parse pf cmd with | .ok l => l | .error _ => [])) := by
+      apply parse_join
+      intro cmd hc
+      obtain ⟨r', _, i', _, hden, rfl⟩ := (other_commands_unaffected regs).1 ((mem_sortDesc _ _).1 hc)
+      obtain ⟨d', hp', _, _⟩ := (denotes_iff env pf _ i').1 hden
+      rw [hp']
+    have hdefs : defs = (sortDesc (commands env pf c regs)).flatMap (fun cmd => match parse pf cmd with | .ok l => l | .error _ => []) := by
+      rw [hp] at hpar
+      injection hpar
+    have hdin : d ∈ defs := by
+      rw [hdefs]
+      refine List.mem_flatMap.2 ⟨render i, hmem, ?_⟩
+      rw [hx.parse hdd]; simp
+    obtain ⟨u, hu, hpres⟩ := hE.present d (List.mem_append_left _ hdin)
+    exact ⟨d, u, hdd, hu, hpres⟩
+  · intro h p x hx
+    obtain ⟨d, hdm, u, hu, hk, hc⟩ := hE.asked h p x hx
+    rcases List.mem_append.1 hdm with hdd | hdd
+    · obtain ⟨r, hr, i, hi, hw, _⟩ := hd d hdd
+      exact .inl ⟨r, hr, i, hi, d, u, hw, hu, hk, hc⟩
+    · exact .inr ⟨d, hdd, u, hu, hk, hc⟩
+
 /-! ### non-vacuity -/
 
 set_option maxRecDepth 8000 in
@@ -208,8 +319,27 @@ example : (let s := step envW pfW init (.svc (config envW pfW cfgW [victim]))
 example : hostile.map (fun r => (step envW pfW init (.svc (config envW pfW cfgW [victim, r]))).lastTable) =
     hostile.map (fun _ => (step envW pfW init (.svc (config envW pfW cfgW [victim]))).lastTable) := by decide
 
+/-- the unrepaired `build` (D19): with one instance carrying `weight=abc` the first text is rejected, `first` stays
+open — a starting fabio never serves; the repaired code starts -/
+example : (step envW pfW init (.svc (configOld printAll cfgW [victim, mk "svc" ["urlprefix-/x weight=abc"]]))).started = false ∧
+    (step envW pfW init (.svc (config envW pfW cfgW [victim, mk "svc" ["urlprefix-/x weight=abc"]]))).started = true := by
+  decide
+
 /-- hypothesis of `step_idempotent_of_accepted` on an accepted update -/
 example : (step envW pfW init (.svc (config envW pfW cfgW [victim, web]))).lastTable =
     nextText (receive init (.svc (config envW pfW cfgW [victim, web]))) := by decide
+
+/-- an operator's text with a comment, a blank line and a route: the hypothesis `ManAdds` holds … -/
+def manW : Str := "# operator\n\nroute add manual /manual http://9.9.9.9:1/ tags \"op\"".toList
+
+example : (match parse pfW manW with
+    | .ok md => md.length == 1 && md.all (fun d => d.cmd == .add && accepted envW d)
+    | .error _ => false) = true := by decide
+
+/-- … and with it in force the loop installs the services' update next to the operator's route, a hostile instance
+notwithstanding -/
+example : ((step envW pfW { init with mancfg := manW } (.svc (config envW pfW cfgW [victim, attacker]))).table.flatMap
+      (fun h => h.2.flatMap (fun r => r.targets.map (fun x => (x.service, r.path))))) =
+    [("victim".toList, "/v".toList), ("manual".toList, "/manual".toList)] := by decide
 
 end Fabio.Props.C14Watch
